@@ -195,9 +195,10 @@ Theorem C20_same_placement : forall a b, same_placement a b = true <-> a = b.
 Proof. exact same_placement_eq. Qed.
 Print Assumptions C20_same_placement.
 
-(* For every history of Clear / Draw / Render / Refresh from the initial state, and every frame
-   i of it (r = it is a Refresh, cur = graphicsNext at that frame, prev = graphicsNext at the
-   frame before, empty for the first): the events of the frame are the deletions followed by the
+(* For every history of Clear / Draw / Render / Refresh / image Resize / change of the terminal size
+   from the initial state, and every frame i of it (r = it is a full refresh: a Refresh, or the first
+   frame after a change of the terminal size; cur = graphicsNext at that frame, prev = graphicsNext
+   at the frame before - also across a change of the terminal size -, empty for the first): the events of the frame are the deletions followed by the
    writes; p is written iff it is in cur and (refresh or not in prev) — new, moved or resized
    placements differ from every previous one; p is deleted iff it is in prev and (refresh or
    not in cur).  Hence a placement present in both frames is neither written nor deleted
